@@ -340,8 +340,13 @@ func (x *Exec) stmt(st *State, s ast.Stmt, fr *frame, k func(*State)) {
 			fr.onReturn(st, rs)
 			return
 		}
-		if len(s.Results) == 1 && x.unit.Sig != nil && fr.results == nil && false {
-			return
+		if len(s.Results) == 1 {
+			if ce, ok := ast.Unparen(s.Results[0]).(*ast.CallExpr); ok {
+				if tup, ok := x.info.TypeOf(ce).(*types.Tuple); ok && tup.Len() > 1 {
+					x.call(st, ce, func(st *State, rs []Term) { fr.onReturn(st, rs) })
+					return
+				}
+			}
 		}
 		x.exprList(st, s.Results, func(st *State, vs []Term) { fr.onReturn(st, vs) })
 	case *ast.IfStmt:
@@ -1634,6 +1639,7 @@ func (x *Exec) composite(st *State, e *ast.CompositeLit, addr bool, k func(*Stat
 					return
 				}
 				r := x.alloc(st, "new_"+named.Obj().Name())
+				st.ghost["new:"+named.Obj().Name()] = r
 				for i := 0; i < u.NumFields(); i++ {
 					f := u.Field(i)
 					so := x.d.sortOf(f.Type())
